@@ -341,6 +341,123 @@ func run1(t *testing.T, c Case) (res Result) {
 			}
 			w.checkAll("after-expired-commit")
 			res.Class = "expiry-ok"
+		case "lagging-acquire":
+			// The replica is one transaction behind when it asks for the lock (a long-running reader on its mount keeps
+			// the stream's frame waiting; Variant 1: two transactions). The grant names the primary's position: the
+			// acquisition must wait for the stream, then the replica writes from exactly that position.
+			rd := pager.NewConn(R.M, "db", 55, ps)
+			if err := rd.HoldRead(c.WAL); err != nil {
+				res.Harness = "reader on the replica: " + err.Error()
+				return
+			}
+			for i := 0; i <= c.Variant; i++ {
+				if ok, err, step := w.txOn(P, 3, []uint32{3}); !ok {
+					viol("C13/writer-before-halt", "local writer on the primary failed before any halt: %v at %s", err, step)
+					return
+				}
+			}
+			lab.Settle(300 * time.Millisecond)
+			if posOf(R) == posOf(P) {
+				res.Harness = "the replica did not lag"
+				rd.Close()
+				return
+			}
+			acq := make(chan error, 1)
+			go func() { acq <- w.acquire() }()
+			lab.Settle(500 * time.Millisecond)
+			rd.DropRead(c.WAL)
+			rd.Close()
+			if err := <-acq; err != nil {
+				viol("C13/acquire-failed/lagging", "acquiring the halt lock on a replica that was behind failed: %v", err)
+				return
+			}
+			if got, want := posOf(R), posOf(P); got != want {
+				viol("C13/start-position", "the replica starts writing at %s but the primary granted the lock at %s", got, want)
+			}
+			if P.DB("db").VerifHaltLockID() == 0 {
+				viol("C13/no-halt-on-primary", "LockWait returned success but the primary holds no halt lock")
+			}
+			ok, err, step := w.txOn(R, 3, []uint32{2, 3})
+			if !ok {
+				viol("C13/forwarded-commit-failed/lagging", "the replica holds the halt lock (acquired while it was behind) but its commit failed at %q: %v", step, err)
+				_ = w.release()
+				return
+			}
+			if pp, rp := posOf(P), posOf(R); pp != rp {
+				viol("C13/ack-before-apply", "the replica's commit returned with R=%s while the primary is at %s", rp, pp)
+			}
+			if err := w.release(); err != nil {
+				viol("C13/release-failed", "releasing the halt lock failed: %v", err)
+			}
+			if ok, err, step := w.txOn(P, 20, []uint32{3}); !ok {
+				viol("C13/writer-after-release", "after release a local transaction on the primary failed at %q: %v", step, err)
+			}
+			w.checkAll("lagging-acquire")
+			res.Class = "lagging-ok"
+		case "acquire-timeout":
+			// The replica stays behind for longer than the acquire timeout (3 s here): the acquisition fails, the
+			// primary's lock is given back, and the replica - which holds nothing - must refuse writes.
+			rd := pager.NewConn(R.M, "db", 55, ps)
+			if err := rd.HoldRead(c.WAL); err != nil {
+				res.Harness = "reader on the replica: " + err.Error()
+				return
+			}
+			imgR := w.img
+			if ok, err, step := w.txOn(P, 3, []uint32{3}); !ok {
+				viol("C13/writer-before-halt", "local writer on the primary failed before any halt: %v at %s", err, step)
+				return
+			}
+			lab.Settle(300 * time.Millisecond)
+			imgP := w.img
+			if err := w.acquire(); err == nil {
+				res.Harness = "acquire succeeded although the replica cannot catch up"
+				return
+			}
+			lab.Settle(500 * time.Millisecond)
+			if id := P.DB("db").VerifHaltLockID(); id != 0 {
+				viol("C13/halt-survives-failed-acquire", "the acquisition failed on the replica but the primary still holds halt lock %d", id)
+			}
+			// the replica is behind and holds no lock: a write on its mount must be refused and change nothing
+			posBefore := posOf(R)
+			w2 := pager.NewConn(R.M, "db", 56, ps)
+			var werr error
+			if c.WAL {
+				r := w2.RunWTx(pager.WTx{Frames: []uint32{1, 2}, Outcome: "commit"}, imgR)
+				werr = r.Err
+				if r.Committed {
+					viol("C07/write-accepted-without-halt", "after a failed halt acquisition the replica committed a WAL transaction")
+				}
+			} else {
+				// the reader still holds SHARED; a writer gets as far as writing pages only if the node thinks it may write
+				rd.DropRead(c.WAL)
+				r := w2.RunRTx(pager.RTx{Mods: []uint32{2}, Final: "DELETE", Outcome: "commit"}, imgR)
+				werr = r.Err
+				if r.Committed {
+					viol("C07/write-accepted-without-halt", "after a failed halt acquisition the replica committed a transaction")
+				}
+			}
+			w2.Close()
+			if werr == nil || !lab.IsErrno(werr, syscall.EACCES) {
+				viol("C07/write-not-refused-without-halt", "after a failed halt acquisition a write on the replica was not refused with EACCES: %v", werr)
+			}
+			if posOf(R) != posBefore {
+				viol("C07/position-moved-without-halt", "after a failed halt acquisition a write on the replica moved its position %s -> %s", posBefore, posOf(R))
+			}
+			if !c.WAL {
+				if got, err := oracle.ReadLogicalImage(R.DB("db").Path(), ps); err != nil {
+					viol("C07/image-unreadable-without-halt", "replica image: %v", err)
+				} else if ok, d := got.Equal(imgR); !ok {
+					viol("C07/image-changed-without-halt", "after a failed halt acquisition a write on the replica changed its database file: %s", d)
+				}
+			}
+			rd.DropRead(c.WAL)
+			rd.Close()
+			w.img = imgP
+			if ok, err, step := w.txOn(P, 20, []uint32{3}); !ok {
+				viol("C13/writer-after-failed-acquire", "after the failed acquisition a local transaction on the primary failed at %q: %v", step, err)
+			}
+			w.checkAll("acquire-timeout")
+			res.Class = "acquire-timeout-ok"
 		case "lost-replies":
 			// replies to POST /halt, POST /tx or DELETE /halt are lost once; the client-side operation is retried by the caller
 			drop := []string{"POST /halt", "POST /tx", "DELETE /halt"}[c.Variant%3]
@@ -875,6 +992,8 @@ func TestCheck(t *testing.T) {
 		for v := 0; v < 3; v++ {
 			cases = append(cases, Case{Scenario: "lost-replies", WAL: wal, Variant: v})
 		}
+		cases = append(cases, Case{Scenario: "lagging-acquire", WAL: wal, Variant: 0}, Case{Scenario: "lagging-acquire", WAL: wal, Variant: 1},
+			Case{Scenario: "acquire-timeout", WAL: wal})
 		for v := 0; v < 18; v++ {
 			cases = append(cases, Case{Scenario: "tx-matrix", WAL: wal, Variant: v})
 		}
